@@ -472,8 +472,10 @@ class SqfsImage:
             raise DecodeError("xattr index out of range")
         return {k: v for (k, v, _) in self.xattr_sets[ino["xattr"]]["pairs"]}
 
-    def tree(self, with_content=True, maxdepth=64):
+    def tree(self, with_content=True, maxdepth=6000):
         """path(bytes, '/'-joined, root = b'') -> node record"""
+        if sys.getrecursionlimit() < 3 * maxdepth:
+            sys.setrecursionlimit(3 * maxdepth + 1000)
         out = {}
 
         def node(ino):
